@@ -291,6 +291,9 @@ Section Run.
             if bytes_eqb t (bytes_of_string "[]byte")
             then if (n <? 0)%Z then Fail "panic" else Ok (VStr (repeat x00 (Z.to_nat n)))
             else Fail "make"
+          | [VStr t] =>
+            (* make(map[K]V), the type argument as written: the empty map (a list of key/value pairs) *)
+            if bytes_eqb (firstn 4 t) (bytes_of_string "map[") then Ok (VList []) else Fail "make"
           | _ => Fail "make"
           end
         else if String.eqb fn "append" then
@@ -461,6 +464,27 @@ Section Run.
     | _, _ => Fail "field assignment into a non-object"
     end.
 
+  (* the variable and the field path an expression x.f.g names *)
+  Fixpoint place_of (e : gexpr) : option (string * list string) :=
+    match e with
+    | EId x => Some (x, [])
+    | ESel e' f => match place_of e' with Some (x, p) => Some (x, (p ++ [f])%list) | None => None end
+    | _ => None
+    end.
+  (* o.path[i] = v for a slice reached through fields; Go panics outside the slice *)
+  Fixpoint set_elem (path : list string) (i : nat) (v : val) (o : val) : res val :=
+    match path, o with
+    | [], VList l => if Nat.ltb i (List.length l) then Ok (VList (firstn i l ++ v :: skipn (S i) l)%list) else Fail "panic"
+    | f :: r, VObj ty fs =>
+      match lookup f fs with
+      | Some w =>
+        inner <- set_elem r i v w ;;
+        match update f inner fs with Some fs' => Ok (VObj ty fs') | None => Fail "element assignment" end
+      | None => Fail ("no field " ++ f)
+      end
+    | _, _ => Fail "element assignment into a non-slice"
+    end.
+
   Definition dyn_type (v : val) : string :=
     match v with VObj t _ | VEnum t _ => t | _ => "" end.
 
@@ -478,6 +502,28 @@ Section Run.
       '(en1, buf1, stop) <- body (loop_env k v i x en) buf ;;
       let en2 := truncate (List.length en) en1 in
       if stopped stop && negb (is_cont stop) then Ok (en2, buf1, stop) else for_loop body k v r (i + 1)%Z en2 buf1
+    end.
+
+  (* for k, v := range x.path over a slice of pointers: as for_loop, and after each round the element as the body left it
+     (the value of v in the scope of the round) is stored into slot i of the slice x.path of the current environment --
+     whichever way the round ended.  Objects are values here; the store is what makes a change of the object visible
+     through the slice, as the shared pointer does in Go.  The slice ranged over is the one evaluated before the loop. *)
+  Fixpoint for_loop_ptr (body : env -> bytes -> res st) (k v x : string) (path : list string) (l : list val) (i : Z) (en : env) (buf : bytes) : res st :=
+    match l with
+    | [] => Ok (en, buf, Run)
+    | a :: r =>
+      '(en1, buf1, stop) <- body (loop_env k v i a en) buf ;;
+      let a' := match lookup v (firstn (List.length en1 - List.length en) en1) with Some w => w | None => a end in
+      let en2 := truncate (List.length en) en1 in
+      match lookup x en2 with
+      | Some o =>
+        o' <- set_elem path (Z.to_nat i) a' o ;;
+        match update x o' en2 with
+        | Some en3 => if stopped stop && negb (is_cont stop) then Ok (en3, buf1, stop) else for_loop_ptr body k v x path r (i + 1)%Z en3 buf1
+        | None => Fail "element assignment"
+        end
+      | None => Fail ("unbound " ++ x)
+      end
     end.
 
   (* for cond { body } and for ; cond; post { body }: the condition, the body in its scope, the post statement;
@@ -541,6 +587,13 @@ Section Run.
           let fs' := match update "Typ" v fs with Some fs' => fs' | None => ("Typ", v) :: fs end in
           match update x (VObj ty fs') en with Some en' => Ok (en', buf, Run) | None => Ok (en, buf, Run) end
         | _ => Ok (en, buf, Run)
+        end
+      | ECall (ESel (EId x) "SetID") [_] =>
+        (* x.SetID(id) called for its effect: the method has a pointer receiver and no result; [call] answers with the
+           receiver as the method leaves it (obj_method), which becomes the value of x *)
+        match v with
+        | VObj _ _ => match update x v en with Some en' => Ok (en', buf, Run) | None => Fail ("unbound " ++ x) end
+        | _ => Fail "SetID did not return the receiver"
         end
       | _ => Ok (en, buf, Run)
       end
@@ -666,6 +719,13 @@ Section Run.
       | _ => Fail "no loop fuel"
       end
     | SBlock body => scoped body en buf
+    | SForPtr k v coll body =>
+      c <- eval (Z.of_nat (List.length buf)) en coll ;;
+      match place_of coll, c with
+      | Some (x, path), VList l => for_loop_ptr (scoped body) k v x path l 0%Z en buf
+      | Some _, VNil => Ok (en, buf, Run)
+      | _, _ => Fail "range over a non-list"
+      end
     | SFor k v coll body =>
       c <- eval (Z.of_nat (List.length buf)) en coll ;;
       let items := match c with
@@ -810,4 +870,118 @@ Fixpoint call_table_lib (tbl : list printer) (implements : string -> string -> b
       | None => Fail ("no body " ++ ty ++ "." ++ m)
       end
     end
+  end.
+
+(* ---- the ID-assignment passes (Gen/Printers.v idpass_bodies) ----
+   Objects carry the fields of their embedded structs flattened (as EComposite builds them).  The identifier of an
+   object is its embedded ir.LocalIdent (LocalName, LocalID), ir.GlobalIdent (GlobalName, GlobalID) or
+   metadata.MetadataID (a field of that name); the promoted methods are
+     func (i LocalIdent) ID() int64 { return i.LocalID }      func (i *LocalIdent) SetID(id int64) { i.LocalID = id }
+     func (i LocalIdent) IsUnnamed() bool { return len(i.LocalName) == 0 }
+   likewise for GlobalIdent, and  func (i MetadataID) ID() int64 { return int64(i) },
+   func (i *MetadataID) SetID(id int64) { *i = MetadataID(id) }.
+   SetID answers with the receiver as it leaves it (exec1, SExpr). *)
+Definition id_field (fs : list (string * val)) : option string :=
+  match lookup "MetadataID" fs, lookup "LocalID" fs, lookup "GlobalID" fs with
+  | Some _, _, _ => Some "MetadataID"
+  | None, Some _, _ => Some "LocalID"
+  | None, None, Some _ => Some "GlobalID"
+  | None, None, None => None
+  end.
+Definition obj_method (m : string) (v : val) : option (res val) :=
+  if String.eqb m "ID" then
+    Some (match v with
+          | VObj _ fs =>
+            match id_field fs with
+            | Some f => match lookup f fs with Some (VInt z) | Some (VEnum _ z) => Ok (VInt z) | _ => Fail "ID" end
+            | None => Fail "ID of an object without an identifier"
+            end
+          | _ => Fail "ID"
+          end)
+  else if String.eqb m "IsUnnamed" then
+    Some (match v with
+          | VObj _ fs =>
+            match lookup "LocalName" fs, lookup "GlobalName" fs with
+            | Some (VStr n), _ => Ok (VBool (Nat.eqb (List.length n) 0))
+            | None, Some (VStr n) => Ok (VBool (Nat.eqb (List.length n) 0))
+            | _, _ => Fail "IsUnnamed of an object without a name"
+            end
+          | _ => Fail "IsUnnamed"
+          end)
+  else if String.eqb m "SetID" then
+    Some (match v with
+          | VTuple [VObj ty fs; VInt id] =>
+            match id_field fs with
+            | Some f =>
+              let w := if String.eqb f "MetadataID" then VEnum "metadata.MetadataID" id else VInt id in
+              match update f w fs with Some fs' => Ok (VObj ty fs') | None => Fail "SetID" end
+            | None => Fail "SetID of an object without an identifier"
+            end
+          | _ => Fail "SetID"
+          end)
+  else None.
+
+(* maps with integer keys: a list of key/value pairs, one per key; m[k] of an absent key is the zero value, which
+   for the maps met here (map[int64]bool) is false *)
+Definition is_key (k : Z) (p : val) : bool := match p with VTuple [VInt k'; _] => Z.eqb k' k | _ => false end.
+Definition idpass_library (m : string) (v : val) : option (res val) :=
+  if String.eqb m "$mapget" then
+    Some (match v with
+          | VTuple [VList l; VInt k] => match find (is_key k) l with Some (VTuple [_; w]) => Ok w | _ => Ok (VBool false) end
+          | _ => Fail "$mapget"
+          end)
+  else if String.eqb m "$maphas" then
+    Some (match v with
+          | VTuple [VList l; VInt k] =>
+            match find (is_key k) l with Some (VTuple [_; w]) => Ok (VTuple [w; VBool true]) | _ => Ok (VTuple [VBool false; VBool false]) end
+          | _ => Fail "$maphas"
+          end)
+  else if String.eqb m "$mapset" then
+    Some (match v with
+          | VTuple [VList l; VInt k; w] => Ok (VList (VTuple [VInt k; w] :: filter (fun p => negb (is_key k p)) l))
+          | _ => Fail "$mapset"
+          end)
+  else if String.eqb (substring 0 7 m) "$named:" then
+    (* the conversion T(x) to a named integer type T: the name follows the colon *)
+    Some (match v with VInt z | VEnum _ z => Ok (VEnum (substring 7 (String.length m - 7) m) z) | _ => Fail "conversion" end)
+  else if String.eqb m "types.Equal" then
+    (* types.Equal(t, u) is t.Equal(u); every Equal method of package types first asserts that u has the receiver's
+       kind, and the Equal method of VoidType does nothing else: against the void type the answer is whether t is the void type.
+       Other comparisons are outside this library. *)
+    Some (match v with
+          | VTuple [VObj t _; VObj "types.VoidType" _] => Ok (VBool (String.eqb t "types.VoidType"))
+          | _ => Fail "types.Equal with a type other than void on the right"
+          end)
+  else None.
+
+(* the knot over a table of translated bodies, with the Go library, the library above and the identifier methods underneath *)
+Fixpoint call_table_obj (tbl : list printer) (implements : string -> string -> bool) (globals : env) (fuel : nat) (ty m : string) (recv : val) : res val :=
+  match fuel with
+  | O => Fail "out of fuel"
+  | S f =>
+    match find_in tbl ty m with
+    | Some p => run_body implements (call_table_obj tbl implements globals f) globals p recv
+    | None =>
+      match (if String.eqb ty "" then match idpass_library m recv with Some r => Some r | None => go_library m recv end else obj_method m recv) with
+      | Some r => r
+      | None => Fail ("no body " ++ ty ++ "." ++ m)
+      end
+    end
+  end.
+
+(* a method run for its effect on the receiver: the receiver (the first of the names of p_recv) as the body leaves it,
+   and the value returned; a body without results ends without a return *)
+Definition run_method (implements : string -> string -> bool) (call : string -> string -> val -> res val)
+    (globals : env) (p : printer) (recv : val) : res (val * val) :=
+  let params := split_commas (p_recv p) in
+  let frame := match params, recv with
+               | [_], _ => [(p_recv p, recv)]
+               | _, VTuple vs => combine params vs
+               | _, _ => [(p_recv p, recv)]
+               end in
+  '(en, _, fl) <- exec implements call (p_body p) (frame ++ globals)%list [] ;;
+  match lookup (hd "" params) (truncate (List.length frame + List.length globals) en), fl with
+  | Some r, Ret v => Ok (r, v)
+  | Some r, Run => Ok (r, VNil)
+  | _, _ => Fail "the body did not return"
   end.
